@@ -686,7 +686,7 @@ fn main() {
             check.finish();
         }
     }
-    check.explore("single_node", case, 1500, 40_000, run_case);
+    check.explore("single_node", case, 4000, 100_000, run_case);
     let n = NOT_LEADER_IN_BUDGET.load(Ordering::Relaxed);
     if n > 0 {
         check.inconclusive(format!("{n} histories: the single Raft node did not become leader within 10 s"));
